@@ -356,3 +356,276 @@ pub fn o5_shipped_data_agree(shipped: &[Entry], naif: &[Entry]) -> Result<(), St
     }
     Ok(())
 }
+
+// ---------------------------------------------------------------------------------------------
+// O6: the conversions follow the shipped IERS table, whatever providers have been loaded.
+//
+// This oracle is an ENUMERATION over fixed probe instants derived from the table the simulated
+// client loaded from disk (every whole second within +-40 s of every entry, sub-second offsets
+// around each entry, the pre-1972 span, far past and future); no part of it is drawn from the
+// PRNG in the full sweep, and no fault can change what it sees. It is evaluated (a) once per
+// batch on the provider loaded fault-free from the shipped list and (b) in a light, seeded form
+// at every Query, i.e. after whatever loads, failed loads and replacements the run performed —
+// which is what would expose a load that leaks into process-wide conversion state.
+
+/// Which known findings (see /verif/known_findings.txt) are to be reported as KNOWN-FINDING
+/// instead of VIOLATION. Only failures inside the exactly characterised input sets below qualify.
+#[derive(Clone, Copy, Debug, Default)]
+pub struct Known {
+    /// KF1 (repaired by fb5a38a, no longer listed, hence reported as a violation if it returns):
+    /// UTC->TAI looks the offset up in f64 seconds, so a UTC instant within 239 ns *before*
+    /// entry i already receives offset(i).
+    pub kf1: bool,
+    /// KF2: TAI->UTC applies entry i from TAI count T_i on instead of T_i + offset(i): (a) the
+    /// round trip UTC->TAI->UTC returns u - step for T_i - offset(i-1) <= u < T_i; (b) TAI->UTC
+    /// steps back by `step` at TAI count T_i.
+    pub kf2: bool,
+}
+
+#[derive(Clone, Debug, Default)]
+pub struct KnownHits {
+    pub kf1: u64,
+    pub kf2_roundtrip: u64,
+    pub kf2_backstep: u64,
+}
+
+#[derive(Clone, Debug, Default)]
+pub struct ConvStats {
+    pub utc_probes: u64,
+    pub tai_probes: u64,
+    pub hits: KnownHits,
+}
+
+pub fn parts_ns(d: Duration) -> i128 {
+    let (c, n) = d.to_parts();
+    c as i128 * NS_PER_CENTURY + n as i128
+}
+
+pub fn utc_epoch_ns(ns: i128) -> Epoch {
+    Epoch::from_duration(duration_ns(ns), TimeScale::UTC)
+}
+
+fn model_offset_ns(shipped: &[Entry], u_ns: i128) -> i128 {
+    let mut off = 0i128;
+    for &(ts, dat) in shipped {
+        if (ts as i128) * NS_PER_S <= u_ns {
+            off = dat as i128 * NS_PER_S;
+        } else {
+            break;
+        }
+    }
+    off
+}
+
+const F64_WINDOW_NS: i128 = 239; // half an ulp of f64 seconds at 2^31..2^32 s is 238.4 ns
+
+/// One UTC instant: offset applied (O6a), accessor agreement, round trip (O6c).
+/// Returns the TAI count hifitime produced, for the caller's monotonicity check.
+pub fn conv_probe_utc(
+    u: i128,
+    shipped: &[Entry],
+    known: Known,
+    st: &mut ConvStats,
+) -> Result<i128, String> {
+    st.utc_probes += 1;
+    let e = utc_epoch_ns(u);
+    let tai = e.to_time_scale(TimeScale::TAI);
+    if tai.time_scale != TimeScale::TAI {
+        return Err(format!("UTC {u} ns: to_time_scale(TAI) returned scale {:?}", tai.time_scale));
+    }
+    let tai_ns = parts_ns(tai.duration);
+    let got = tai_ns - u;
+    let want = model_offset_ns(shipped, u);
+    if got != want {
+        let kf1 = shipped.iter().any(|&(ts, dat)| {
+            let d = ts as i128 * NS_PER_S - u;
+            d > 0 && d <= F64_WINDOW_NS && got == dat as i128 * NS_PER_S
+        });
+        if kf1 && known.kf1 {
+            st.hits.kf1 += 1;
+        } else {
+            return Err(format!(
+                "UTC->TAI at UTC count {} s {:+} ns since 1900 adds {} ns; the TAI-UTC offset in force per the shipped IERS list is {} ns{}",
+                u.div_euclid(NS_PER_S),
+                u.rem_euclid(NS_PER_S),
+                got,
+                want,
+                if kf1 { " [matches KF1, which known_findings.txt does not list]" } else { "" }
+            ));
+        }
+    }
+    if e.to_tai_duration() != tai.duration || e.to_duration_in_time_scale(TimeScale::TAI) != tai.duration {
+        return Err(format!(
+            "UTC count {u} ns: to_tai_duration / to_duration_in_time_scale(TAI) disagree with to_time_scale(TAI)"
+        ));
+    }
+    let back = tai.to_time_scale(TimeScale::UTC);
+    if back.time_scale != TimeScale::UTC {
+        return Err(format!("TAI {tai_ns} ns: to_time_scale(UTC) returned scale {:?}", back.time_scale));
+    }
+    if tai.to_utc_duration() != back.duration {
+        return Err(format!("TAI count {tai_ns} ns: to_utc_duration disagrees with to_time_scale(UTC)"));
+    }
+    let delta = parts_ns(back.duration) - u;
+    if delta != 0 {
+        let mut prev = 0i128;
+        let mut kf2 = false;
+        for &(ts, dat) in shipped {
+            let t = ts as i128 * NS_PER_S;
+            let step = dat as i128 * NS_PER_S - prev;
+            if prev > 0 && u >= t - prev && u < t && delta == -step {
+                kf2 = true;
+            }
+            prev = dat as i128 * NS_PER_S;
+        }
+        if kf2 && known.kf2 {
+            st.hits.kf2_roundtrip += 1;
+        } else {
+            return Err(format!(
+                "UTC->TAI->UTC at UTC count {} s {:+} ns since 1900 returns the epoch shifted by {} ns{}",
+                u.div_euclid(NS_PER_S),
+                u.rem_euclid(NS_PER_S),
+                delta,
+                if kf2 { " [matches KF2, which known_findings.txt does not list]" } else { "" }
+            ));
+        }
+    }
+    Ok(tai_ns)
+}
+
+/// O6b over a list of UTC probes: UTC->TAI strictly increasing.
+pub fn conv_scan_utc(
+    probes: &mut Vec<i128>,
+    shipped: &[Entry],
+    known: Known,
+    st: &mut ConvStats,
+) -> Result<(), String> {
+    probes.sort_unstable();
+    probes.dedup();
+    let mut prev: Option<(i128, i128)> = None;
+    for &u in probes.iter() {
+        let t = conv_probe_utc(u, shipped, known, st)?;
+        if let Some((pu, pt)) = prev {
+            if t <= pt {
+                return Err(format!(
+                    "UTC->TAI is not strictly increasing: UTC {pu} ns -> TAI {pt} ns but later UTC {u} ns -> TAI {t} ns"
+                ));
+            }
+        }
+        prev = Some((u, t));
+    }
+    Ok(())
+}
+
+/// O6d over a list of TAI probes: TAI->UTC never goes backwards.
+pub fn conv_scan_tai(
+    probes: &mut Vec<i128>,
+    shipped: &[Entry],
+    known: Known,
+    st: &mut ConvStats,
+) -> Result<(), String> {
+    probes.sort_unstable();
+    probes.dedup();
+    let mut prev: Option<(i128, i128)> = None;
+    for &a in probes.iter() {
+        st.tai_probes += 1;
+        let u = tai_epoch_ns(a).to_time_scale(TimeScale::UTC);
+        if u.time_scale != TimeScale::UTC {
+            return Err(format!("TAI {a} ns: to_time_scale(UTC) returned scale {:?}", u.time_scale));
+        }
+        let u_ns = parts_ns(u.duration);
+        if let Some((pa, pu)) = prev {
+            if u_ns < pu {
+                let drop = pu - u_ns;
+                let mut before = 0i128;
+                let mut kf2 = false;
+                for &(ts, dat) in shipped {
+                    let p = ts as i128 * NS_PER_S;
+                    let step = dat as i128 * NS_PER_S - before;
+                    if step > 0 && pa < p && a >= p && drop <= step {
+                        kf2 = true;
+                    }
+                    before = dat as i128 * NS_PER_S;
+                }
+                if kf2 && known.kf2 {
+                    st.hits.kf2_backstep += 1;
+                } else {
+                    return Err(format!(
+                        "TAI->UTC goes backwards: TAI {pa} ns -> UTC {pu} ns but later TAI {a} ns -> UTC {u_ns} ns{}",
+                        if kf2 { " [matches KF2, which known_findings.txt does not list]" } else { "" }
+                    ));
+                }
+            }
+        }
+        prev = Some((a, u_ns));
+    }
+    Ok(())
+}
+
+/// The full, PRNG-free conversion sweep.
+pub fn conv_full_sweep(shipped: &[Entry], fixed: &[i128], known: Known, st: &mut ConvStats) -> Result<(), String> {
+    let mut utc: Vec<i128> = Vec::new();
+    let mut tai: Vec<i128> = Vec::new();
+    let mut prev_t: Option<i128> = None;
+    for &(ts, dat) in shipped {
+        let t = ts as i128 * NS_PER_S;
+        for k in -40i128..=40 {
+            utc.push(t + k * NS_PER_S);
+        }
+        for d in [
+            -NS_PER_S + 1, -500_000_000, -1_000_000, -1000, -500, -240, -239, -238, -237, -1, 1, 500, 1_000_000,
+            500_000_000, NS_PER_S - 1,
+        ] {
+            utc.push(t + d);
+        }
+        // the seconds in which the offset that is about to end still applies, at sub-second phase
+        for k in 1..=(dat as i128 + 2) {
+            utc.push(t - k * NS_PER_S + 123_456_789);
+        }
+        if let Some(p) = prev_t {
+            utc.push((p + t) / 2);
+            utc.push((p + t) / 2 + 1);
+        }
+        prev_t = Some(t);
+        for k in -3i128..=(dat as i128 + 3) {
+            tai.push(t + k * NS_PER_S);
+            tai.push(t + k * NS_PER_S + 500_000_000);
+        }
+        for d in [-1000i128, -239, -238, -1, 1, 238, 239] {
+            tai.push(t + d);
+            tai.push(t + dat as i128 * NS_PER_S + d);
+            tai.push(t + (dat as i128 - 1) * NS_PER_S + d);
+        }
+    }
+    for &s in fixed {
+        utc.push(s * NS_PER_S);
+        utc.push(s * NS_PER_S + 999_999_999);
+        tai.push(s * NS_PER_S);
+    }
+    conv_scan_utc(&mut utc, shipped, known, st)?;
+    conv_scan_tai(&mut tai, shipped, known, st)
+}
+
+/// The light, seeded form evaluated at every Query.
+pub fn conv_light(shipped: &[Entry], probe_seed: u64, known: Known, st: &mut ConvStats) -> Result<(), String> {
+    let mut rng = Rng::new(probe_seed ^ 0xC0_6C06);
+    let mut utc: Vec<i128> = Vec::new();
+    for _ in 0..4 {
+        let &(ts, dat) = rng.pick(shipped);
+        let t = ts as i128 * NS_PER_S;
+        utc.push(t + (rng.range(0, 80) as i128 - 40) * NS_PER_S);
+        utc.push(t + (rng.range(0, 2) as i128 - 1) * NS_PER_S);
+        utc.push(t - rng.range(1, dat as u64 + 1) as i128 * NS_PER_S + rng.below(NS_PER_S as u64) as i128);
+        utc.push(t + rng.range(0, 2000) as i128 - 1000);
+    }
+    utc.push(crate::refdata::ntp_seconds_of_date(1960 + rng.below(12) as i64, 1 + rng.below(12) as u32, 1) as i128 * NS_PER_S);
+    conv_scan_utc(&mut utc, shipped, known, st)?;
+    let mut tai: Vec<i128> = Vec::new();
+    let &(ts, dat) = rng.pick(shipped);
+    let t = ts as i128 * NS_PER_S;
+    for k in [-1i128, 0, 1] {
+        tai.push(t + k * NS_PER_S + 500_000_000);
+        tai.push(t + (dat as i128 + k) * NS_PER_S);
+    }
+    conv_scan_tai(&mut tai, shipped, known, st)
+}
